@@ -5,9 +5,11 @@ import (
 	"fmt"
 	"math"
 	"math/rand"
+	"os"
 	"runtime"
 	"strings"
 	"sync"
+	"time"
 
 	"google.golang.org/protobuf/encoding/protowire"
 	"google.golang.org/protobuf/proto"
@@ -604,8 +606,12 @@ func c22() {
 		go func() {
 			defer wg.Done()
 			for c := range ch {
+				t0 := time.Now()
 				r.Guard(c.describe(), func() { runC22Case(r, c) })
 				r.Eval(1)
+				if d := time.Since(t0); d > 2*time.Second && os.Getenv("VERIF_DEBUG") != "" {
+					fmt.Printf("slow case %d: %.1fs alg=%s style=%d msgs=%d\n", c.Index, d.Seconds(), c.Alg, c.Style, len(c.msgs))
+				}
 			}
 		}()
 	}
